@@ -60,7 +60,8 @@ MN_ALIAS = {
     'setnb': 'setae', 'setna': 'setbe', 'setnbe': 'seta', 'setpe': 'setp', 'setpo': 'setnp', 'setnge': 'setl', 'setnl': 'setge', 'setng': 'setle',
     'setnle': 'setg', 'cmovz': 'cmove', 'cmovnz': 'cmovne', 'cmovc': 'cmovb', 'cmovnae': 'cmovb', 'cmovnc': 'cmovae', 'cmovnb': 'cmovae',
     'cmovna': 'cmovbe', 'cmovnbe': 'cmova', 'cmovpe': 'cmovp', 'cmovpo': 'cmovnp', 'cmovnge': 'cmovl', 'cmovnl': 'cmovge', 'cmovng': 'cmovle',
-    'cmovnle': 'cmovg', 'loopz': 'loope', 'loopnz': 'loopne', 'repe': 'repz', 'repne': 'repnz', 'xlatb': 'xlat', 'fwait': 'wait',
+    'cmovnle': 'cmovg', 'loopz': 'loope', 'loopnz': 'loopne', 'repe': 'repz', 'repne': 'repnz', 'rep': 'repz',   # one prefix byte (f3), three spellings
+     'xlatb': 'xlat', 'fwait': 'wait',
     'retn': 'ret', 'lret': 'retf', 'iretd': 'iret', 'pushad': 'pusha', 'popad': 'popa', 'pushfd': 'pushf', 'popfd': 'popf', 'int3': 'int3',
     'icebp': 'int1', 'ud2a': 'ud2', 'cwtl': 'cwde', 'cltd': 'cdq', 'jmpf': 'jmp', 'callf': 'call', 'ljmp': 'jmp', 'lcall': 'call',
 }
